@@ -118,6 +118,8 @@ def generate(prng, tier, index):
           "limits": [prng.choice((0, 0, 2, 3, 4, 5)) if prng.random() > 0.05 else prng.choice((6, 7, 8, 100, 2 ** 31)) for _ in range(ncalls)],
           "policy": {"shuffle": [prng.choice(SHUFFLES) for _ in range(ncalls + 1)]},
           "attrs": prng.random() < 0.3}
+    if prng.random() < 0.12:
+        sc["label_type"] = prng.choice(("frozenset", "frozenset", "tuple", "str", "mixed"))
     if variant == "faults":
         sc["abort_at"] = prng.randrange(0, 8)
         if prng.random() < 0.5:
@@ -402,13 +404,49 @@ def execute_scale(sc, ctx):
     ctx.result(n, unl)
 
 
+def label_fn(kind):
+    """Vertex labels of another TYPE than int (the scenario itself stays in ints): singleton frozensets as networkx's
+    quotient graphs produce them (hashable, but NOT totally ordered: neither a < b nor b < a), tuples, strings, or
+    ints and strings side by side (not comparable at all)."""
+    return {None: (lambda v: v), "frozenset": (lambda v: frozenset((v,))), "tuple": (lambda v: (v, "x")),
+            "str": (lambda v: f"v{v}"), "mixed": (lambda v: v if v % 2 == 0 else f"v{v}")}[kind]
+
+
+def back_to_ints(R, inv):
+    """The cover of a relabelled graph as a cover of the int-labelled scenario graph: vertices mapped back, every label
+    string rebuilt as size-[members]-id with the members read off the edges that carry it (member reprs of foreign
+    types cannot be parsed)."""
+    H = nx.Graph()
+    H.add_nodes_from(inv[v] for v in R.nodes())
+    groups = {}
+    for u, v, d in R.edges(data=True):
+        lab = d.get("clique")
+        H.add_edge(inv[u], inv[v])
+        if isinstance(lab, str) and "-" in lab:
+            groups.setdefault(lab, set()).update((inv[u], inv[v]))
+    for u, v, d in R.edges(data=True):
+        lab = d.get("clique")
+        if isinstance(lab, str) and "-" in lab:
+            H.edges[inv[u], inv[v]]["clique"] = f"{lab.split('-', 1)[0]}-{sorted(groups[lab])}-{lab.rsplit('-', 1)[1]}"
+        elif lab is not None:
+            H.edges[inv[u], inv[v]]["clique"] = lab
+        for k, x in d.items():
+            if k != "clique":
+                H.edges[inv[u], inv[v]][k] = x
+    return H
+
+
 def execute(sc, ctx):
     if sc.get("scale"):
         return execute_scale(sc, ctx)
     P = "C10"
+    f = label_fn(sc.get("label_type"))
+    inv = {f(v): v for v in sc["nodes"]}
+    if sc.get("label_type"):
+        ctx.probe(f"vertex_labels_of_type_{sc['label_type']}")
     G = nx.Graph()
-    G.add_nodes_from(sc["nodes"])
-    G.add_edges_from([tuple(e) for e in sc["edges"]])
+    G.add_nodes_from(f(v) for v in sc["nodes"])
+    G.add_edges_from([(f(e[0]), f(e[1])) for e in sc["edges"]])
     if sc.get("attrs"):
         for i, (u, v) in enumerate(G.edges()):
             G.edges[u, v]["topology"] = f"t{i % 2}"
@@ -418,9 +456,9 @@ def execute(sc, ctx):
     for k, limit in enumerate(sc["limits"]):
         if k > 0 and sc.get("moves") and k - 1 < len(sc["moves"]):
             for out_e, in_e in sc["moves"][k - 1]:
-                if G.has_edge(*out_e) and not G.has_edge(*in_e):
-                    G.remove_edge(*out_e)
-                    G.add_edge(*in_e)
+                if G.has_edge(f(out_e[0]), f(out_e[1])) and not G.has_edge(f(in_e[0]), f(in_e[1])):
+                    G.remove_edge(f(out_e[0]), f(out_e[1]))
+                    G.add_edge(f(in_e[0]), f(in_e[1]))
                     cur = [e for e in cur if frozenset(e) != frozenset(out_e)] + [list(in_e)]
                     ctx.probe("edge_moved_between_covers")
         if k == 0 and sc["variant"] == "faults":
@@ -431,7 +469,7 @@ def execute(sc, ctx):
             if st == "abort":
                 tag = " (cover after an aborted one on the same graph)"
                 ctx.probe("cover_after_abort")
-                if {frozenset(e) for e in G.edges()} != {frozenset(e) for e in cur}:
+                if {frozenset((inv[a], inv[b])) for a, b in G.edges()} != {frozenset(e) for e in cur}:
                     ctx.violate(f"{P}.same", "an aborted cover changed the graph's edge set")
                     return
         st, R = ctx.call(src, MPCC, G, limit, budget=100000, label=f"MPCC[{limit}]")
@@ -441,7 +479,15 @@ def execute(sc, ctx):
         if k > 0:
             tag = " (second cover on the same graph)"
             ctx.probe("second_cover_same_graph")
-        verify(sc, ctx, G, R, limit, tag, edges=cur)
+        if sc.get("label_type") and isinstance(R, nx.Graph):
+            try:
+                Gi, Ri = back_to_ints(G, inv), back_to_ints(R, inv)
+            except KeyError as e:
+                ctx.violate(f"{P}.same", f"the cover contains a vertex that is not in the graph: {e!r}{tag}")
+                return
+            verify(sc, ctx, Gi, Ri, limit, tag + f" (vertex labels of type {sc['label_type']})", edges=cur)
+        else:
+            verify(sc, ctx, G, R, limit, tag, edges=cur)
         ctx.result(limit, sorted(d.get("clique", "") for _, _, d in R.edges(data=True)) if isinstance(R, nx.Graph) else "")
     ctx.nedges = len(sc["edges"])
     ctx.probe("wide_shuffle_decisions", src.wide)
